@@ -1,6 +1,7 @@
 (* C02 — the definitions generated from the source (Gen/Fresnel.v) are the model (Model/Fresnel.v). *)
 From Coq Require Import Reals Lra Psatz.
-From SpdVerif Require Import Model.Optics Model.Fresnel Gen.Fresnel Proofs.C02_fresnel Proofs.C02_index Proofs.C02_frame.
+From Coquelicot Require Import Coquelicot.
+From SpdVerif Require Import Model.Optics Model.Fresnel Gen.Fresnel Proofs.C02_fresnel Proofs.C02_index Proofs.C02_frame Proofs.C02_fd.
 Local Open Scope R_scope.
 
 Lemma to_crystal_frame_gen_eq theta phi d : to_crystal_frame_gen theta phi d = crystal_frame theta phi d.
@@ -164,4 +165,23 @@ Qed.
 Lemma walkoff_gen_ext f g theta : (forall t, f t = g t) -> walkoff_gen f theta = walkoff_gen g theta.
 Proof.
   intros H. unfold walkoff_gen, derivative_at_gen. cbv zeta. rewrite !H. reflexivity.
+Qed.
+
+(* ---- the code's finite-difference walk-off against the exact one: |rho_code - rho_exact| <= M h^2 / (6 n),
+   h = eps^(1/3) |theta| (or eps^(1/3) at theta = 0), M any bound on the third derivative of n over (theta - h, theta + h) *)
+Theorem walkoff_gen_truncation (n : R -> R) theta M :
+  0 < n theta ->
+  (forall t k, (k <= 3)%nat -> ex_derive_n n k t) ->
+  (forall t, theta - fd_step_gen theta < t < theta + fd_step_gen theta -> Rabs (Derive_n n 3 t) <= M) ->
+  Rabs (walkoff_gen n theta - walkoff_exact n theta) <= M * fd_step_gen theta ^ 2 / (6 * n theta).
+Proof.
+  intros Hn Hsm HM. rewrite walkoff_gen_unfold. cbv zeta. unfold walkoff_exact.
+  pose proof (fd_step_pos theta) as Hh. set (h := fd_step_gen theta) in *.
+  pose proof (central_difference_error n theta h M Hh Hsm HM) as Hc.
+  eapply Rle_trans; [apply atan_lipschitz |].
+  set (q := (n (theta + h) - n (theta - h)) / (2 * h)) in *.
+  replace (- q / n theta - - Derive n theta / n theta) with (- (q - Derive n theta) / n theta) by (field; lra).
+  unfold Rdiv at 1. rewrite Rabs_mult, Rabs_Ropp, (Rabs_right (/ n theta)) by (left; apply Rinv_0_lt_compat; exact Hn).
+  replace (M * h ^ 2 / (6 * n theta)) with (M * h ^ 2 / 6 * / n theta) by (field; lra).
+  apply Rmult_le_compat_r; [left; apply Rinv_0_lt_compat; exact Hn | exact Hc].
 Qed.
